@@ -120,6 +120,9 @@ func (f *RawMessageFilter) ConsumeCacheMessages(consensusMessagesHandler Consens
 		f.logger.Debug("LHFILTER consuming %d messages from height=%d", len(messages), height)
 	}
 	for _, message := range messages {
+		if f.state.Height() != height {
+			break // a replayed message completed this height: the handler now belongs to the next one
+		}
 		f.processConsensusMessage(message)
 	}
 	delete(f.futureCache, height)
